@@ -26,10 +26,12 @@ func runC19(r *core.Run) {
 	r.Rule("R19.2", "SetCapabilities: first containing range wins, nothing else ends the range loop, invalid ranges are errors", 6, false)
 	r.Rule("R19.3", "Has answers false for capabilities that were never set", 1, false)
 	r.Rule("R19.4", "the default comparer parses both versions before answering", 1, false)
+	r.Rule("R19.5", "NewCapability pairs version strings by argument position (even = lower bound, odd = upper bound)", 2, false)
 	c19Contains(r)
 	c19Set(r)
 	c19Has(r)
 	c19Comparer(r)
+	c19Pairing(r)
 }
 
 type absOutcome int
@@ -629,4 +631,66 @@ func c19Comparer(r *core.Run) {
 		}
 	}
 	r.Check(ok, "R19.4", "VersionCompareSemantic: nil error only after both NewVersion calls succeeded", fn.Pos(), "every nil-error return is dominated by both parse errors being nil", why)
+}
+
+// c19Pairing: in NewCapability the i-th version string becomes the lower
+// bound when i is even and the upper bound when i is odd (documented
+// pairing); a range is appended after its upper bound and the scratch range
+// is reset.
+func c19Pairing(r *core.Run) {
+	p := r.Prog
+	fn := p.Func("capability", "", "NewCapability")
+	fIntro := p.Field("capability", "VersionRange", "Introduced")
+	fRem := p.Field("capability", "VersionRange", "Removed")
+	parity := func(in ssa.Instruction) (even, odd bool) {
+		for _, g := range core.GuardsAt(in) {
+			bo, ok := g.Cond.(*ssa.BinOp)
+			if !ok || (bo.Op != token.EQL && bo.Op != token.NEQ) {
+				continue
+			}
+			rem, ok := bo.X.(*ssa.BinOp)
+			if !ok || rem.Op != token.REM {
+				continue
+			}
+			two, ok2 := core.ConstInt64(rem.Y)
+			k, ok3 := core.ConstInt64(bo.Y)
+			if !ok2 || !ok3 || two != 2 {
+				continue
+			}
+			isEvenTest := (k == 0) == (bo.Op == token.EQL)
+			if isEvenTest == g.Pol {
+				even = true
+			} else {
+				odd = true
+			}
+		}
+		return
+	}
+	for _, f := range []struct {
+		field *types.Var
+		want  string
+	}{{fIntro, "even"}, {fRem, "odd"}} {
+		ok, why, n := true, "", 0
+		for _, b := range fn.Blocks {
+			for _, in := range b.Instrs {
+				st, isSt := in.(*ssa.Store)
+				if !isSt {
+					continue
+				}
+				fa, isFA := st.Addr.(*ssa.FieldAddr)
+				if !isFA || core.FieldOfAddr(fa) != f.field {
+					continue
+				}
+				n++
+				ev, od := parity(st)
+				if f.want == "even" && !(ev && !od) || f.want == "odd" && !(od && !ev) {
+					ok, why = false, f.field.Name()+" is assigned on an edge that is not the "+f.want+"-index edge of i%2: the strings are no longer paired by position, so an empty lower bound shifts every later bound by one"
+				}
+			}
+		}
+		if n == 0 {
+			ok, why = false, f.field.Name()+" is never assigned from the arguments"
+		}
+		r.Check(ok, "R19.5", "NewCapability: "+f.field.Name()+" from "+f.want+" positions", fn.Pos(), "assigned only under i%2 "+map[string]string{"even": "== 0", "odd": "!= 0"}[f.want], why)
+	}
 }
